@@ -97,6 +97,13 @@ def make_input(path, d, sibling, extra="plain"):
                                 names=["a", "b"])
         t = tb.create_dataset("srctab", data=rec)
         t.attrs["COLOR_a"] = "red"
+        # a second table (sorted after the first), with attributes of its own
+        rec2 = np.rec.fromarrays([np.arange(3.0) + 0.5, np.arange(3.0) * 3,
+                                  np.arange(3.0) - 7],
+                                 names=["x", "y", "z"])
+        t2 = tb.create_dataset("zzztab", data=rec2)
+        t2.attrs["UNIT_x"] = "µm"
+        t2.attrs["scale"] = 2.5
         # basins: a file basin (sibling holds bright_avg) and an internal one
         bg = h5.create_group("basins")
         bdef = {"description": "sibling", "format": "hdf5", "name": "sib",
@@ -208,11 +215,12 @@ def compare(pin, pout, task, stripped, out, first, notcarried=()):
             keep = [k for k in b["logs"] if not k.startswith("dclab-")]
             if keep:
                 out.append(("logs not stripped", str(keep)))
-        ta, tb_ = a["tables"]["srctab"], b.get("tables", {}).get("srctab")
-        if tb_ is None or not np.array_equal(ta[:], tb_[:]):
-            out.append(("table cells differ after %s" % task, ""))
-        elif dict(ta.attrs) != dict(tb_.attrs):
-            out.append(("table attributes lost after %s" % task, ""))
+        for tname in a["tables"]:
+            ta, tb_ = a["tables"][tname], b.get("tables", {}).get(tname)
+            if tb_ is None or not np.array_equal(ta[:], tb_[:]):
+                out.append(("table cells differ after %s" % task, tname))
+            elif dict(ta.attrs) != dict(tb_.attrs):
+                out.append(("table attributes lost after %s" % task, tname))
         for k in a.attrs:
             if k == "setup:software version":
                 continue
